@@ -31,6 +31,30 @@ fn pipeline(args: &[String]) -> i32 {
     0
 }
 
+fn digests_engine(args: &[String]) -> i32 {
+    let cases = read_ndjson(&args[0]);
+    let threads: usize = std::env::var("WF_THREADS").ok().and_then(|s| s.parse().ok()).unwrap_or(1);
+    let pool = rayon::ThreadPoolBuilder::new().num_threads(threads).build().unwrap();
+    let mut out = Out::new();
+    for (i, c) in cases.iter().enumerate() {
+        let case: run::Case = match serde_json::from_value(c.clone()) {
+            Ok(c) => c,
+            Err(e) => {
+                eprintln!("bad case {i}: {e}");
+                return 2;
+            },
+        };
+        let mut r = pool.install(|| match wfcommon::util::catch(|| run::dispatch_digests(&case)) {
+            Ok(v) => v,
+            Err(p) => json!({"verdict": "setup_panic", "detail": p}),
+        });
+        r["i"] = json!(i);
+        out.emit(&r);
+        out.flush();
+    }
+    0
+}
+
 fn validate_engine(args: &[String]) -> i32 {
     let cases = read_ndjson(&args[0]);
     let mut out = Out::new();
@@ -82,6 +106,7 @@ fn main() {
     let code = match args.get(1).map(|s| s.as_str()) {
         Some("pipeline") => pipeline(&args[2..]),
         Some("validate") => validate_engine(&args[2..]),
+        Some("digests") => digests_engine(&args[2..]),
         Some("tables") => tables_engine(&args[2..]),
         _ => {
             eprintln!("usage: wf-stark <pipeline> ...");
